@@ -28,7 +28,25 @@ Definition wb_stmt (i : N) : item := IStmt P0 (TIri [20000 + i]) (TPname nEX [11
 Definition wb_doc : list item := IPrefix nEX iE :: map wb_stmt (nseq 1499 0).
 Definition wb_missing : lquad := lq_of [21200] (iE ++ [112]) [31200] None.   (* the statement of line 1202 *)
 
-(* (c) a literal with a leading blank, N-Triples *)
+(* (c) a literal with a leading blank, N-Triples: right since fix 16f77b9 (encode_cleaned_term).  `encode_triple_old`
+   is the encoding of a parsed statement before that repair (every cleaned term through encode_term_star), kept for
+   the regression lemma.  The residue of the finding: a literal whose VALUE looks like a quoted triple (wr_doc), and
+   Turtle statements with a quoted triple, which still go through encode_term_star (wt_doc). *)
+Definition encode_triple_old (x : db) (t : str * str * str) : db * (N * N * N) :=
+  let '(s, p, o) := t in
+  let (x1, si) := encode_star x s in
+  let (x2, pi) := encode_star x1 p in
+  let (x3, oi) := encode_star x2 o in
+  (x3, (si, pi, oi)).
+Definition den_after_old (t : str * str * str) : list lquad :=
+  let (x, e) := encode_triple_old db_new t in den (add_triple x e).
+Definition wr_doc : list item :=
+  [IStmt P0 (TIri iA) (TIri iB) (TLit [LPlain 60; LPlain 60; LPlain 120; LPlain 32; LPlain 121; LPlain 32; LPlain 122; LPlain 62; LPlain 62] SNone) None].
+Definition wr_missing : lquad := lq_of iA iB [60; 60; 120; 32; 121; 32; 122; 62; 62] None.    (* the literal "<<x y z>>" *)
+Definition wt_doc : list item :=
+  [IStmt P0 (TQuoted (TIri iA) (TIri iB) (TIri iC)) (TIri iB) (TLit [LPlain 32; LPlain 118; LPlain 32] SNone) None].
+Definition wt_missing : lquad :=
+  lq_of ([60;60;32] ++ iA ++ [32] ++ iB ++ [32] ++ iC ++ [32;62;62]) iB [32; 118; 32] None.
 Definition wc_doc : list item := [IStmt P0 (TIri iA) (TIri iB) (TLit [LPlain 32; LPlain 120] SNone) None].
 Definition wc_missing : lquad := lq_of iA iB [32; 120] None.
 
